@@ -411,6 +411,21 @@ class Lifter:
         """-> (kind, args, polarity): the predicate `kind(args)` holds iff (term is true) == polarity"""
         r = self.r
         t = term
+        if isinstance(t, tuple) and len(t) == 4 and t[0] == 'cmp' and t[1] in ('==', '!='):
+            # &*it1 == &*it2 (node identity) is it1 == it2; &list.back() is &*std::prev(list.end())
+            def node_it(a):
+                if isinstance(a, tuple) and len(a) == 2 and a[0] == 'addr' and isinstance(a[1], tuple) and a[1]:
+                    n = a[1]
+                    if n[0] == 'deref' and len(n) == 2:
+                        return n[1]
+                    if n[0] == 'q' and n[1] == 'back' and len(n) > 4:
+                        return ('adv', -1, ('q', 'end', n[2], (), None), (n[4] or 0))
+                    if n[0] == 'q' and n[1] == 'front' and len(n) > 4:
+                        return ('q', 'begin', n[2], (), n[4])
+                return None
+            ia, ib = node_it(t[2]), node_it(t[3])
+            if ia is not None and ib is not None:
+                t = ('cmp', t[1], ia, ib)
         if isinstance(t, tuple) and t[0] == 'pred':
             return ('INS_OK' if t[1] == 'insert_allowed' else 'UPD_OK', (t[2],), True)
         if isinstance(t, tuple) and t[0] == 'cmp' and t[1] in ('==', '!='):
@@ -569,6 +584,12 @@ class Lifter:
                         return ('AT_PART', (self.iter_entity(x),), op == '==')
                     if isinstance(y, tuple) and y[0] == 'q' and y[1] in ('begin', 'cbegin') and y[2] == self.order:
                         return ('IS_FRONT', (self.iter_entity(x), y[4] or 0), op == '==')
+                    if r.kind == 'slotvec' and self.order is not None and is_ld(y) and isinstance(y[2], tuple) and y[2][0] == 'q' \
+                            and y[2][1] == 'front' and y[2][2] == self.order and is_ld(x):
+                        # slot ids are unique in the slot list (RI): `idx == m_lru_list.front()` <=> the slot's node is the head
+                        ex = self.sid_entity(x)
+                        if ex.kind in ('FOUND', 'AUXHEAD', 'ATPART', 'BACK', 'RANDPOS'):
+                            return ('IS_FRONT', (ex, y[2][4] or 0), op == '==')
                     if isinstance(y, tuple) and y[0] == 'q' and y[1] in ('end', 'cend') and y[2] in self.aux:
                         return ('IT_AT_END', (x, self.aux[y[2]][0]), op == '==')
                     if isinstance(y, tuple) and y[0] == 'q' and y[1] in ('begin', 'cbegin') and y[2] in self.aux:
@@ -597,6 +618,15 @@ class Lifter:
                         and y[2] in self.aux and self.aux[y[2]][1] == 'ttl' and len(y[3]) == 1 and isinstance(y[3][0], tuple) and y[3][0][:1] == ('now',) \
                         and self.lv_walk_aux_decl(x) == y[2]:
                     return ('SWEEP_GUARD', (x, self.aux[y[2]][0], y[3][0], y), op == '!=')
+                # ttl.upper_bound(now) != ttl.begin(): some key is <= now, i.e. the head of the deadline-ordered structure is expired
+                # (inclusive); lower_bound(now) is the strict form
+                if isinstance(x, tuple) and len(x) > 3 and x[0] == 'q' and x[1] in ('upper_bound', 'lower_bound') and x[2] in self.aux \
+                        and self.aux[x[2]][1] == 'ttl' and len(x[3]) == 1 and isinstance(x[3][0], tuple) and x[3][0][:1] == ('now',) \
+                        and isinstance(y, tuple) and len(y) > 2 and y[0] == 'q' and y[1] in ('begin', 'cbegin') and y[2] == x[2] \
+                        and (x[4] or 0) == (y[4] or 0):
+                    d = ('ld', 0, ('fld', ('deref', ('q', 'begin', x[2], (), y[4])), 'first'))
+                    ent = Ent('AUXHEAD', self.aux[x[2]][0], y[4] or 0, d)
+                    return ('EXPIRED' if x[1] == 'upper_bound' else 'EXPIRED_STRICT', (ent, x[3][0], d), op == '!=')
                 # std::next(e.m_ttl_position) == ttl.end(): the element's node is the last one (same fact as pos == std::prev(end()))
                 if isinstance(x, tuple) and len(x) > 2 and x[0] == 'adv' and x[1] == 1 and is_ld(x[2]) and x[2][2][0] == 'fld' \
                         and r.backptrs.get(x[2][2][2]) in r.aux_kind and isinstance(y, tuple) and y and y[0] == 'q' and y[1] in ('end', 'cend') \
@@ -671,6 +701,9 @@ class Lifter:
         r = self.r
         if isinstance(x, tuple) and x[0] == 'q' and x[1] in ('size', 'capacity'):
             return x[2] in (self.slots, self.order, self.perm) and x[2] is not None
+        if is_ld(x) and isinstance(x[2], tuple) and len(x[2]) == 3 and x[2][0] == 'fld' and x[2][1] == ('this',) \
+                and x[2][2] in getattr(r, 'capacity_copies', ()):
+            return True       # a const member the constructor set to its capacity argument
         return False
 
     def is_deadline_read(self, x):
@@ -745,7 +778,7 @@ class Segment:
         for e in path.trace:
             if e[0] == 'loop':
                 self.events.append(e)
-                cur += 1
+                cur += 0 if getattr(e[1], 'pure', False) else 1      # a loop that only changes its own locals starts no new era
             else:
                 ev = tuple(rel(x, cur) if isinstance(x, tuple) else x for x in e)
                 if inv is not None and e[0] in ('cond', 'lwr', 'wr', 'call', 'use', 'ret'):
@@ -763,7 +796,6 @@ class Segment:
         self._lift()
         self._alias_pass()
         self._aux_alias_pass()
-        self._full_alias_pass()
         if parent is None and loop is None:
             self._sizediff_pass()
 
@@ -885,32 +917,45 @@ class Segment:
         L.walkers[(name, lv[2])] = auxname
         return segs, exits
 
-    def _full_alias_pass(self):
-        """a full cache has no free slot: the partition is end(), so the node in front of it (`*std::prev(m_lru_end)`) is `back()`.  On a
-        path that established FULL, the entity ATPART(-1) of the entry state is renamed BACK."""
+    def names_back(self, ent):
+        """does this entity denote `back()` of the slot list as it was at entry?  BACK itself, or - a full cache has no free slot, the
+        partition is end() - the node in front of the partition (`*std::prev(m_lru_end)`), provided that iterator was taken (first
+        dereferenced / compared / passed on) before the path moved the partition or re-linked a node"""
+        if not isinstance(ent, Ent):
+            return False
+        if ent.kind == 'BACK':
+            return (ent.epoch or 0) == 0
+        if not (ent.kind == 'ATPART' and ent.arg == -1 and (ent.epoch or 0) == 0):
+            return False
         if self.L.part is None or self.L.order is None or self.L.r.kind != 'slotvec':
-            return
+            return False
         full = next((c for c in self.conds if c[0] == 'FULL'), None)
         if full is None or full[2] is not True:
-            return
+            return False
+        first_change = next((p for p, (k, i) in enumerate(self.order) if k == 'eff' and (
+            self.effects[i].kind in ('PART', 'MOVE', 'ORDER_OP') or (self.effects[i].kind == 'CNT' and getattr(self.effects[i], 'also_part', False)))),
+            len(self.order))
 
-        def ren(ent):
-            if isinstance(ent, Ent) and ent.kind == 'ATPART' and ent.arg == -1 and (ent.epoch or 0) == 0:
-                return Ent('BACK', None, 0, ent.term)
-            return ent
-        # only names taken while the partition still has its entry value (before the first time the path moves it)
-        for k, i in self.order:
-            if k == 'eff':
-                e = self.effects[i]
-                if e.kind in ('PART',) or (e.kind == 'CNT' and getattr(e, 'also_part', False)):
-                    break
-                if isinstance(getattr(e, 'ent', None), Ent):
-                    e.ent = ren(e.ent)
-            elif k == 'cond':
-                c = self.conds[i]
-                args = tuple(ren(a) for a in c[1])
-                if any(a is not b for a, b in zip(args, c[1])):
-                    self.conds[i] = (c[0], args) + tuple(c[2:])
+        def contains(t, it, depth=0):
+            if t == it:
+                return True
+            return isinstance(t, tuple) and depth < 10 and any(contains(x, it, depth + 1) for x in t if isinstance(x, tuple))
+        term = getattr(ent, 'term', None)
+        it = None
+        for x in subterms(term) if isinstance(term, tuple) else []:
+            if isinstance(x, tuple) and len(x) > 2 and x[0] == 'adv' and x[1] == -1 and x[2] == ld0(self.L.part):
+                it = x
+                break
+        if it is None:
+            return False
+        for p, (k, i) in enumerate(self.order[:first_change]):
+            if k == 'use' and contains(i, it):
+                return True
+            if k == 'cond' and contains(self.conds[i][4], it):
+                return True
+            if k == 'eff' and any(contains(v, it) for v in self.effects[i].__dict__.values() if isinstance(v, tuple)):
+                return True
+        return False
 
     def _sizediff_pass(self):
         """`const auto before = m_used_size; <loop> return before - m_used_size;` (or the size() of the key index / an auxiliary
